@@ -285,6 +285,39 @@ def c03_cases(res):
                 t.line(1, "LUSERS")
                 t.meta = {"cfg": cname, "prefix": pre, "probe": probe}
                 traces.append(t)
+    # registration refused half-way by a nickname collision that only shows at the end
+    for cname, cfg in cfgs:
+        for li, probe in enumerate(ALL_VERB_LINES):
+            if res.tier == "quick" and li % 4 != 0 and probe not in ("JOIN #a", "PRIVMSG bob :hi", "WHO *", "NICK zed", "MODE bob +i"):
+                continue
+            for order in (0, 1):
+                t = Trace("c03-late-%s-%d-%d" % (cname, li, order), cfg)
+                pw = cfg.password
+                uc = [u for u in cfg.users if u["name"] == "zed"]
+                pw1 = (uc[0].get("password") if uc and uc[0].get("password") else None) or pw
+                t.open(1)
+                if pw1:
+                    t.line(1, "PASS " + pw1)
+                if order == 0:
+                    t.line(1, "NICK zed")
+                else:
+                    t.line(1, "CAP LS 302")
+                    t.line(1, "NICK zed")
+                    t.line(1, "USER zed 8 * :Z")
+                t.open(0)
+                if pw:
+                    t.line(0, "PASS " + pw)
+                t.line(0, "NICK zed")
+                t.line(0, "USER other 8 * :Other")
+                t.line(0, "JOIN #a")
+                t.line(1, "USER zed 8 * :Z" if order == 0 else "CAP END")
+                t.line(1, probe)
+                t.line(1, "PRIVMSG #a :spoof")
+                t.close(1)
+                t.line(0, "ISON zed")
+                t.line(0, "NAMES #a")
+                t.meta = {"cfg": cname, "prefix": ["late-collision", order], "probe": probe}
+                traces.append(t)
     return traces
 
 
@@ -999,4 +1032,219 @@ def check_C09(res):
         "exhaustive": res.tier == "thorough",
         "traces_validated_against_impl": r["traces"],
         "samples": [sweep[5].describe()["events"][12:], sweep[5].meta],
+        "l2": r["summary"]})
+
+
+# ====================================================================== C08
+NEEDED = {"q": lambda f: "q" in f, "a": lambda f: "q" in f or "a" in f,
+          "o": lambda f: any(x in f for x in "qao"), "h": lambda f: any(x in f for x in "qao")}
+RANKLIST = {"q": "founders", "a": "protecteds", "o": "operators", "h": "half_operators", "v": "voices"}
+LISTNAME = {"b": "ban", "e": "exception", "I": "invex"}
+
+
+def rank_sufficient(letter, f):
+    return NEEDED.get(letter, is_half_op)(f)
+
+
+def apply_announcement(ch, tokens):
+    """replays 'MODE #c ...' (this server's dialect) over a channel record of the dump"""
+    import copy
+    ch = copy.deepcopy(ch)
+    i = 0
+    while i < len(tokens):
+        tok = tokens[i]
+        i += 1
+        if not tok or tok[0] not in "+-":
+            return None
+        sign = None
+        for l in tok:
+            if l in "+-":
+                sign = l
+                continue
+            arg = None
+            if l in "beIqaohv" or (l in "lk" and sign == "+"):
+                if i >= len(tokens):
+                    return None
+                arg = tokens[i]
+                i += 1
+            if l in "imtns":
+                fl = set(ch["flags"])
+                (fl.add if sign == "+" else fl.discard)(l)
+                ch["flags"] = "".join(x for x in "imstn" if x in fl)
+            elif l == "l":
+                ch["limit"] = int(arg) if sign == "+" else None
+            elif l == "k":
+                ch["key"] = arg if sign == "+" else None
+            elif l in LISTNAME:
+                s = set(ch[LISTNAME[l]])
+                (s.add if sign == "+" else s.discard)(arg)
+                ch[LISTNAME[l]] = sorted(s)
+            elif l in RANKLIST:
+                s = set(ch[RANKLIST[l]])
+                (s.add if sign == "+" else s.discard)(arg)
+                ch[RANKLIST[l]] = sorted(s)
+                if arg in ch["users"]:
+                    f = set(ch["users"][arg])
+                    (f.add if sign == "+" else f.discard)(l)
+                    ch["users"][arg] = "".join(x for x in "qaohv" if x in f)
+            else:
+                return None
+    return ch
+
+
+MODE_FIELDS = ["flags", "key", "limit", "ban", "exception", "invex", "founders", "protecteds", "operators", "half_operators",
+               "voices", "users"]
+
+
+def mode_oracle(t, steps):
+    fails = []
+    cm = ConnMap(t.cfg.name)
+    prev = None
+    for s in sorted(steps, key=lambda s: s["k"]):
+        ev = t.events[s["k"]]
+        if ev[0] == "L" and isinstance(ev[2], str) and prev is not None and not s.get("panics"):
+            actor = cm.nick.get(ev[1])
+            m = re.match(r"^MODE ([#&]\S*)(?: (.*))?$", ev[2])
+            if m and actor in prev["users"]:
+                chn = m.group(1)
+                after = s["dump"]
+                chp, cha = prev["channels"].get(chn), after["channels"].get(chn)
+                anns = [(c, l) for c, ls in (s.get("out") or {}).items() for l in ls if re.match(r"^:\S+ MODE %s " % re.escape(chn), l)]
+                # nothing but this channel's mode fields may change
+                import copy
+                p2, a2 = copy.deepcopy(prev), copy.deepcopy(after)
+                if chn in p2["channels"] and chn in a2["channels"]:
+                    for f in MODE_FIELDS + ["ban_info"]:
+                        p2["channels"][chn].pop(f, None)
+                        a2["channels"][chn].pop(f, None)
+                d = irc.diff_dump(p2, a2, "state")
+                if d:
+                    fails.append(("%s by %s changed something outside the channel's modes: %s" % (ev[2], actor, d), {"step": s["k"]}))
+                if chp is None or cha is None:
+                    prev = s.get("dump")
+                    cm.update(s)
+                    continue
+                changed = [f for f in MODE_FIELDS if chp[f] != cha[f]]
+                if actor not in chp["users"]:
+                    if changed or anns:
+                        fails.append(("%s by outsider %s changed %r / announced %r" % (ev[2], actor, changed, anns), {"step": s["k"]}))
+                else:
+                    f = chp["users"][actor]
+                    # privilege per changed field
+                    for fld in changed:
+                        if fld == "users":
+                            for n in chp["users"]:
+                                for l in "qaohv":
+                                    if (l in chp["users"][n]) != (l in cha["users"].get(n, "")) and not rank_sufficient(l, f):
+                                        fails.append(("%s by %s (%s) changed rank %s of %s without the needed rank" % (ev[2], actor, f, l, n), {"step": s["k"]}))
+                            if set(chp["users"]) != set(cha["users"]):
+                                fails.append(("%s changed who is on %s" % (ev[2], chn), {"step": s["k"]}))
+                        elif fld in RANKLIST.values():
+                            l = [k for k, v in RANKLIST.items() if v == fld][0]
+                            if not rank_sufficient(l, f):
+                                fails.append(("%s by %s (%s) changed list %s without the needed rank" % (ev[2], actor, f, fld), {"step": s["k"]}))
+                        elif not is_half_op(f):
+                            fails.append(("%s by %s (%s) changed %s without being half-operator or above" % (ev[2], actor, f, fld), {"step": s["k"]}))
+                    # exactly as announced
+                    if changed or anns:
+                        per_conn = collections.Counter(c for c, _ in anns)
+                        texts = set(l for _, l in anns)
+                        members = set(chp["users"])
+                        want = collections.Counter(str(cm.conn_of(n)) for n in members)
+                        if changed and (per_conn != want or len(texts) != 1):
+                            fails.append(("%s: change %r announced to %r, expected once to each of %r" % (ev[2], changed, dict(per_conn), dict(want)), {"step": s["k"]}))
+                        elif anns and (per_conn != want or len(texts) != 1):
+                            fails.append(("%s: announcement went to %r, expected once to each member %r" % (ev[2], dict(per_conn), dict(want)), {"step": s["k"]}))
+                        if len(texts) == 1:
+                            line = list(texts)[0]
+                            toks = line.split(" ")[3:]
+                            rep = apply_announcement(chp, toks)
+                            if rep is None:
+                                fails.append(("%s: announcement %r cannot be parsed" % (ev[2], line), {"step": s["k"]}))
+                            else:
+                                bad = [fl for fl in MODE_FIELDS if rep[fl] != cha[fl]]
+                                if bad:
+                                    fails.append(("%s: replaying the announcement %r over the old channel gives different %r: announced %r, actual %r" % (
+                                        ev[2], line, bad, {b: rep[b] for b in bad}, {b: cha[b] for b in bad}), {"step": s["k"]}))
+        cm.update(s)
+        prev = s.get("dump")
+    return fails
+
+
+def c08_sweep(res):
+    traces = []
+    names = {"q": "founders", "a": "protecteds", "o": "operators", "h": "half_operators", "v": "voices"}
+    k = 0
+    for a in RANK_SUBSETS:
+        k += 1
+        if res.tier == "quick" and k % 4 != (res.seed % 4):
+            continue
+        ch = dict(name="#m", founders=["boss"], voices=["peer"])
+        for l in a:
+            ch[names[l]] = ch.get(names[l], []) + ["actor"]
+        cfg = Config(channels=[ch])
+        t = Trace("c08-%s" % (a or "none"), cfg)
+        for c, n in enumerate(["actor", "boss", "peer", "outsider"]):
+            t.register(c, n)
+            if n != "outsider":
+                t.line(c, "JOIN #m")
+        for letter in "imtnsklbeIqaohv":
+            for sign in "+-":
+                for tgt in ("peer", "boss", "actor", "outsider", "nobody"):
+                    if letter in "imtns":
+                        if tgt != "peer":
+                            continue
+                        t.line(0, "MODE #m %s%s" % (sign, letter))
+                    elif letter == "k":
+                        if tgt != "peer":
+                            continue
+                        t.line(0, "MODE #m %sk%s" % (sign, " key1" if sign == "+" else ""))
+                    elif letter == "l":
+                        if tgt != "peer":
+                            continue
+                        t.line(0, "MODE #m %sl%s" % (sign, " 7" if sign == "+" else ""))
+                    elif letter in "beI":
+                        if tgt not in ("peer", "nobody"):
+                            continue
+                        t.line(0, "MODE #m %s%s %s" % (sign, letter, "peer!*@*" if tgt == "peer" else "nick@host"))
+                    else:
+                        t.line(0, "MODE #m %s%s %s" % (sign, letter, tgt))
+        t.line(3, "MODE #m +i")
+        t.line(3, "MODE #m")
+        t.line(0, "MODE #m -i+i")
+        t.line(0, "MODE #m +l 5 -l")
+        t.line(0, "MODE #m +l-l 5")
+        t.line(0, "MODE #m -lk")
+        t.line(0, "MODE #m +k a -k +k b")
+        t.line(0, "MODE #m +imi-m+m")
+        t.line(1, "MODE #m +lk-lk+o 3 kk peer")
+        t.line(1, "MODE #m +l 9 +k zz")
+        t.line(1, "MODE #m -lk")
+        t.line(1, "MODE #m +l 9 +k zz")
+        t.line(1, "MODE #m -kl")
+        t.line(1, "MODE #m +l 9")
+        t.line(1, "MODE #m -l -k +k newkey")
+        t.line(1, "MODE #m +l 4")
+        t.line(1, "MODE #m -k+k-l+l k2 6")
+        t.line(1, "MODE #m")
+        t.meta = {"actor": a}
+        traces.append(t)
+    return traces
+
+
+def check_C08(res):
+    sweep = c08_sweep(res)
+    n = 120 if res.tier == "quick" else 2500
+    prof = {"weights": dict(MODE=40, JOIN=10, PART=2, KICK=2, NICK=2, PRIVMSG=2, TOPIC=1, INVITE=1, NAMES=1, MISC=0.2, BAD=1.5),
+            "max_conns": 6, "initial_conns": 4}
+    r = l2_campaign(res, "C08", n, 50, prof, traces=sweep, oracle=mode_oracle)
+    res.coverage.update({
+        "evaluations": r["steps"], "distinct_nontrivial": sum(len(t.events) for t in sweep),
+        "rule": "sweep: 32 actor rank subsets x 15 mode letters x {+,-} x target in {voiced peer, founder, self, non-member, unregistered} (flag/key/limit letters once per sign) through a preconfigured channel, "
+                "followed by sign-switching strings (-i+i, +l 5 -l, +l-l 5, -lk, +k a -k +k b, ...) (quick: a seed-selected quarter of the actor subsets; thorough: all); distinct = single-command cells; plus "
+                "%d seeded random histories with multi-letter strings; oracle on the implementation: every changed field needs the rank the property names, nothing outside the channel's mode fields changes, each "
+                "change is announced exactly once to every member, and replaying the announced string over the old record reproduces the new record" % n,
+        "exhaustive": res.tier == "thorough",
+        "traces_validated_against_impl": r["traces"],
+        "samples": [sweep[1].describe()["events"][10:16], sweep[1].meta],
         "l2": r["summary"]})
